@@ -245,8 +245,63 @@ def one_call(kind, call_id, limit, dur, col, rnd, baseline_threads, cfg):
     return inter
 
 
+def library_after_timeout(task, col):
+    """The function the library itself runs under the limiter (EncoderSelector._get_n_mat): count_all_matrices on a
+    cold on-disk cache, interrupted by the time limit; results of calls made afterwards (same generator, fresh
+    generator, i.e. through whatever the interrupted call left on disk) must equal those of an undisturbed run."""
+    import numpy as np
+    from adsg_core.optimization.assign_enc.time_limiter import run_timeout
+    import adsg_core.optimization.assign_enc.matrix as mx
+    rnd = gen.rng_for('C19lib', task['seed'], task['shard'])
+    for rep in range(task['hi']):
+        ns, nt = rnd.choice([(4, 4), (4, 5), (5, 5)])
+        col.evaluations += 1
+        col.count('monitor_calls')
+        col.count('monitor_library_calls')
+
+        def settings():
+            return mx.MatrixGenSettings([mx.Node([0, 1, 2]) for _ in range(ns)],
+                                        [mx.Node([0, 1, 2], repeated_allowed=False) for _ in range(nt)])
+        g = mx.AggregateAssignmentMatrixGenerator(settings())
+        g.reset_agg_matrix_cache()
+        limit = rnd.choice([.01, .03, .08])
+        outcome = 'return'
+        try:
+            run_timeout(limit, g.count_all_matrices)
+        except TimeoutError:
+            outcome = 'timeout'
+        except Exception as e:  # noqa
+            outcome = 'exc:' + type(e).__name__
+        col.count('library_outcome_' + outcome)
+        try:
+            n_tup_after = sum(1 for _ in mx.AggregateAssignmentMatrixGenerator(settings()).iter_n_sources_targets())
+            c_same = g.count_all_matrices()
+            c_fresh = mx.AggregateAssignmentMatrixGenerator(settings()).count_all_matrices()
+            g2 = mx.AggregateAssignmentMatrixGenerator(settings())
+            g2.reset_agg_matrix_cache()
+            n_tup_ref = sum(1 for _ in g2.iter_n_sources_targets(cache=False))
+            g2.reset_agg_matrix_cache()
+            c_ref = mx.AggregateAssignmentMatrixGenerator(settings()).count_all_matrices()
+            g2.reset_agg_matrix_cache()
+        except Exception as e:  # noqa
+            info = D.exc_info(e)
+            col.violation('later_call_affected', {'library': 'count_all_matrices', 'n_src': ns, 'n_tgt': nt},
+                          {'exc': info, 'first_call': outcome, 'limit': limit}, [],
+                          where={'kind': 'library', 'exc': info['type']})
+            continue
+        col.nontrivial.add('library|%s|%d' % (outcome, ns * nt))
+        if (n_tup_after, c_same, c_fresh) != (n_tup_ref, c_ref, c_ref):
+            col.violation('later_call_affected', {'library': 'count_all_matrices', 'n_src': ns, 'n_tgt': nt},
+                          {'first_call': outcome, 'limit': limit, 'tuples_after': n_tup_after, 'tuples_reference': n_tup_ref,
+                           'count_same_generator': int(c_same), 'count_fresh_generator': int(c_fresh),
+                           'count_reference': int(c_ref)}, [], where={'kind': 'library', 'first_call': outcome})
+
+
 def worker(task, col):
     import adsg_core.optimization.assign_enc.time_limiter  # noqa
+    if task.get('only') == 'library':
+        library_after_timeout(task, col)
+        return
     rnd = gen.rng_for('C19', task['seed'], task['shard'])
     sw = task.get('switch')
     if sw:
@@ -339,6 +394,9 @@ def main(run):
             tasks.append({'shard': sid, 'lo': 0, 'hi': 12 if run.tier == 'quick' else 40, 'switch': [None, 5e-6, 5e-3][j % 3],
                           'inject': j % 2 == 1, 'only': 'nested', 'witness': j == 0})
             sid += 1
+        for j in range(2 if run.tier == 'quick' else 6):
+            tasks.append({'shard': sid, 'lo': 0, 'hi': 3 if run.tier == 'quick' else 8, 'only': 'library'})
+            sid += 1
         res = run.map(tasks, timeout=1700, extra_env={} if os.environ.get('VERIF_C19_NO_DEV') else {'PYTHONDEVMODE': '1'})
         # a crashed worker process is an observation, not a harness failure
         crashed = [(t, d) for t, r, d in zip(tasks, res, run.diag + [''] * len(tasks)) if r is None]
@@ -355,7 +413,9 @@ def main(run):
             run.n_failed_tasks -= n_nested_crash     # judged as violations (known finding), not as lost tasks
             run.results.append({'evaluations': 0, 'violations': viols, 'counters': {}, 'nontrivial': []})
     run.finish('calls of run_timeout over classes fast_return/fast_raise/raise_timeout_itself/work/near_limit '
-               '(duration 0.5..1.5 x limit)/blocked/swallow_once/native_sleep/nested and back-to-back runs, under '
+               '(duration 0.5..1.5 x limit)/blocked/swallow_once/native_sleep/swallow_long/nested, back-to-back runs, '
+               'and the library\'s own limited workload (count_all_matrices on a cold cache, then the same queries '
+               'undisturbed), under '
                'switch intervals {default, 5e-6, 5e-3} with and without sys.monitoring sleeps injected between the '
                'timed get, is_alive(), the asynchronous interrupt and join; a case is (class, interleaving) where '
                'interleaving = hash of the sequence of events of the calling and worker thread; all are non-trivial',
